@@ -5,6 +5,7 @@ import (
 	"encoding/hex"
 	"io"
 	"lunar/engine/utils/environment"
+	"lunar/toolkit-core/verifhook"
 	"os"
 	"path/filepath"
 )
@@ -157,6 +158,9 @@ func (fs *FileSystemOperation) SaveMetricsConfig(content []byte) error {
 }
 
 func (fs *FileSystemOperation) cleanUpFile(filePath string) error {
+	if err := verifhook.Fault("fs.remove", filePath); err != nil {
+		return err
+	}
 	if err := os.Remove(filePath); err != nil && !os.IsNotExist(err) {
 		return err
 	}
@@ -169,6 +173,9 @@ func (fs *FileSystemOperation) cleanUpDirectory(cleanupPath string) error {
 			return err
 		}
 		if !info.IsDir() {
+			if err := verifhook.Fault("fs.remove", path); err != nil {
+				return err
+			}
 			return os.Remove(path)
 		}
 		return nil
@@ -180,15 +187,27 @@ func (fs *FileSystemOperation) storeFileOnDisk(filePath string, content []byte) 
 	_ = fs.cleanUpFile(filePath)
 
 	dir := filepath.Dir(filePath)
+	if err := verifhook.Fault("fs.mkdir", dir); err != nil {
+		return err
+	}
 	if err := os.MkdirAll(dir, os.ModePerm); err != nil {
 		return err
 	}
 
+	if err := verifhook.Fault("fs.create", filePath); err != nil {
+		return err
+	}
 	file, err := os.Create(filePath)
 	if err != nil {
 		return err
 	}
 	defer file.Close()
+
+	if err := verifhook.Fault("fs.write", filePath); err != nil {
+		// a torn write: half of the content reaches the disk, then the error
+		_, _ = file.Write(content[:len(content)/2])
+		return err
+	}
 
 	_, err = file.Write(content)
 	return err
@@ -219,6 +238,9 @@ func (fs *FileSystemOperation) backupFile(filePath string, backup *FileSystemBac
 		return nil
 	}
 
+	if err := verifhook.Fault("fs.read", filePath); err != nil {
+		return err
+	}
 	file, err := os.Open(filePath)
 	if err != nil {
 		return err
